@@ -324,6 +324,10 @@ func (d *Def) getMethodNameAndSetIsStatic(
 	if t.IsTargetIdentifier("self") {
 		ctx.IsDefineStatic = true
 
+		// `private` / `protected` sections do not apply to `def self.x`
+		ctx.IsPrivate = false
+		ctx.IsProtected = false
+
 		t, err = p.ReadTwice()
 		if err != nil {
 			return "", err
